@@ -165,6 +165,20 @@ CHECKS = {
                 "excluded by its exact input class. Chromosome-length bounds are outside the claim.",
         "design": "3 C14",
     },
+    "C11": {
+        "text": "Differential bounded symbolic verification: each real function runs on a symbolic input x and on its image T(x) in the same "
+                "path and z3 decides f(T(x)) = T(f(x)). Reflection (x -> M-x, lists reversed, strands and polyA/polyT swapped, left/right event "
+                "names swapped by a table derived from the enum) for the mirrored pairs count_polya_exons/count_polyt_exons, shift_polya/shift_polyt, "
+                "interval_bin_search/_rev, sum_intervals_to/from_point, detect_reference_exons_beyond_polya/_before_polyt, verify_polya/verify_polyt "
+                "(<=3-4 exons, all coordinates and tail positions symbolic) and for the whole real profile-construction + assignment pipeline on "
+                "catalogue loci and their mirror images with isoform-anchored symbolic reads (following; 5'/3' elongated by a symbolic 30..320 bp; "
+                "one splice site shifted by a symbolic 7..70 bp; with/without a polyA tail): assignment type and isoform set must be equal. "
+                "Translation by a symbolic k for merge_ranges, prefix sums, binary search, junction conversion and the CIGAR walk.",
+        "note": "Trusted: z3, symx proxies. Annotation loci are concrete (hashed), so locus-level translation by a symbolic k and the "
+                "bin-multiple translation of split_coverage_regions are outside the claim, as are whole-run comparisons and discovered models. "
+                "One known finding (absent tail position -1 used in a distance near the chromosome start) is excluded by its input class.",
+        "design": "3 C11",
+    },
 }
 
 NOT_BUILT = "check not built yet (build in progress, see DESIGN.md section 5); no claim is made"
